@@ -83,28 +83,36 @@ where
     id
 }
 
-/// Marks the current thread as blocked
+/// Blocks the current thread until it is unparked, unless it has already been
+/// unparked since the last call to `park`.
 pub(crate) fn park(location: Location) {
     let switch = execution(|execution| {
-        use thread::State;
         let thread = execution.threads.active_id();
         let active = execution.threads.active_mut();
 
         trace!(?thread, ?active.state, "park");
 
-        match active.state {
-            // The thread was previously unparked while it was active. Instead
-            // of parking, consume the unpark.
-            State::Runnable { unparked: true } => {
-                active.set_runnable();
-                return false;
-            }
-            // The thread doesn't have a saved unpark; set its state to blocked.
-            _ => active.set_blocked(location),
-        };
+        // A saved unpark is consumed instead of parking.
+        if !active.set_parked(location) {
+            return false;
+        }
 
-        execution.threads.active_mut().set_blocked(location);
-        execution.threads.active_mut().operation = None;
+        active.operation = None;
+        execution.schedule()
+    });
+
+    if switch {
+        Scheduler::switch();
+    }
+}
+
+/// Blocks the current thread until another thread wakes it
+pub(crate) fn block(location: Location) {
+    let switch = execution(|execution| {
+        let active = execution.threads.active_mut();
+
+        active.set_blocked(location);
+        active.operation = None;
         execution.schedule()
     });
 
